@@ -246,8 +246,39 @@ struct Pending {
     deadline: usize,
 }
 
+/// The order constraints the plugin declares itself (chain and select before animate) are part
+/// of what makes a key change take effect in the frame it is seen. The simulator pins a total
+/// order per run, which would *mask* a registration that no longer declares them - so the
+/// declared order is read back from bevy's own schedule graph once per process.
+fn declared_order_violation() -> Option<String> {
+    use std::sync::OnceLock;
+    static REPORT: OnceLock<Option<String>> = OnceLock::new();
+    REPORT
+        .get_or_init(|| {
+            let r = declared_order_report();
+            let pairs = r.get("pairs_bevy_reports_as_unordered_and_conflicting")?.as_arr().ok()?;
+            for p in pairs {
+                let text = p.as_str().ok()?;
+                if text == "animate <-> chain" || text == "animate <-> select" {
+                    return Some(format!(
+                        "the plugin's own registration leaves `{text}` unordered (bevy reports the pair as conflicting without an order); register_animation_key is documented to run both before the animation system"
+                    ));
+                }
+            }
+            None
+        })
+        .clone()
+}
+
 fn execute(scn: &BScn, property: &str) -> RunOutcome {
     simmodel::normalise_hidden_state();
+    if property == "C19" && scn.cfg.selector {
+        if let Some(d) = declared_order_violation() {
+            let mut out = RunOutcome::default();
+            out.violation = Some(viol("C19", "declared-system-order-lost", 0, d, "declared-order".into()));
+            return out;
+        }
+    }
     let mut out = RunOutcome::default();
     let mut h = ObsHash::default();
     let cfg = &scn.cfg;
